@@ -59,7 +59,12 @@ def solve(device, p=0, s0=None, solver_options={}, prox=None, cb=None):
 
   # Don't attempt solve if input constrained to single solution.
   if (device.bounds[:, 0] == device.bounds[:, 1]).all():
-    return (device.lbounds.reshape(device.shape), None)
+    s = np.array(device.lbounds, dtype=float)
+    for c in device.constraints:
+      v = np.array(c['fun'](s)).sum()
+      if (c['type'] == 'eq' and abs(v) > 1e-6) or (c['type'] != 'eq' and v < -1e-6):
+        raise OptimizationException('The only flow within bounds violates a constraint (%s, %f)' % (c['type'], v))
+    return (s.reshape(device.shape), None)
 
   # Find a (assumed) feasible starting point
   s0 = (s0 if s0 is not None else device.project(np.zeros(device.shape))).flatten()
